@@ -304,7 +304,7 @@ class Run(object):
                 acc, path = M.slide_geom_expectation(k, expected, lay_phs, mas_phs)
                 self.check_geom(s, acc, "new", path, expected[k])
                 entry["phs"].append({"id": got[k].id, "key": expected[k].key(), "acc": acc,
-                                     "path": path})
+                                     "path": path, "k": k})
         self.model.append(entry)
         return slide
 
@@ -476,6 +476,51 @@ class Run(object):
         ph["path"] = "overridden"
         self.verify_model_slide(slide, m, "after-override")
 
+    def op_edit_layout(self, si, phi, level, x, y, cx, cy):
+        """the layout (or its master) is edited through the public setters after slides were made from it: slide
+        placeholders that were never positioned themselves follow ("... until overridden")"""
+        from pptx.util import Emu
+
+        if not self.model:
+            self.stats.discarded += 1
+            return
+        m0 = self.model[si % len(self.model)]
+        lay = [l for l in self.layouts() if str(l.part.partname) == m0["layout"]]
+        if not lay:
+            self.stats.discarded += 1
+            return
+        layout = lay[0]
+        owner = layout if level == 0 else layout.slide_master
+        with sut("C13:edit-layout:find"):
+            phs = [p for p in owner.placeholders]
+        if not phs:
+            self.stats.discarded += 1
+            return
+        target = phs[phi % len(phs)]
+        with sut("C13:edit-layout:assign"):
+            target.left, target.top, target.width, target.height = Emu(x), Emu(y), Emu(cx), Emu(cy)
+        self.stats.classes.append("edit:%s-placeholder-geometry" % ("layout" if level == 0 else "master"))
+        # expectations of every slide made from a layout of that master are derived again from the parts as they
+        # are now (same model as at creation); overridden placeholders keep their own geometry
+        slides = self.slides()
+        for m in self.model:
+            # placeholders cloned in from some layout by clone_placeholder(): which layout placeholder they now
+            # inherit from is not modelled across an edit; they are no longer judged
+            m["phs"] = [ph for ph in m["phs"] if "k" in ph or ph["path"] == "overridden"]
+        for k, m in enumerate(self.model):
+            l2 = [l for l in self.layouts() if str(l.part.partname) == m["layout"]]
+            if not l2 or (level == 0 and l2[0].part is not layout.part) or (
+                    level == 1 and l2[0].slide_master.part is not layout.slide_master.part):
+                continue
+            lay_phs = M.placeholders(M.parse(l2[0].part.blob))
+            mas_phs = M.placeholders(M.parse(l2[0].slide_master.part.blob))
+            expected = [p for p in lay_phs if p.type not in M.LATENT]
+            for ph in m["phs"]:
+                if ph["path"] == "overridden" or "k" not in ph or ph["k"] >= len(expected):
+                    continue
+                ph["acc"], ph["path"] = M.slide_geom_expectation(ph["k"], expected, lay_phs, mas_phs)
+            self.verify_model_slide(slides[self.n0 + k], m, "after-%s-edit" % ("layout" if level == 0 else "master"))
+
     def op_text(self, si, phi, text):
         if not self.model:
             self.stats.discarded += 1
@@ -641,6 +686,8 @@ class Run(object):
             self.op_reopen()
         elif name == "override":
             self.op_override(*op[1:7])
+        elif name == "edit_layout":
+            self.op_edit_layout(*op[1:8])
         elif name == "text":
             self.op_text(op[1], op[2], op[3])
         elif name == "slidename":
@@ -759,6 +806,7 @@ def _ops(layout_indices, max_ops):
         st.tuples(st.just("notes"), small).map(list),
         st.just(["reopen"]),
         st.tuples(st.just("override"), small, small, _COORD, _COORD, _EXT, _EXT).map(list),
+        st.tuples(st.just("edit_layout"), small, small, st.sampled_from([0, 0, 1]), _COORD, _COORD, _EXT, _EXT).map(list),
         st.tuples(st.just("text"), small, small, _TEXT).map(list),
         st.tuples(st.just("slidename"), small, _TEXT).map(list),
     )
